@@ -9,7 +9,7 @@ cleanup() { git -C /repo worktree remove --force $WT; }
 trap cleanup EXIT
 cd $WT
 first=$(head -1 $M/demo_test.go.txt)
-dest=$(echo "$first" | grep -oE '[a-zA-Z0-9_/.-]+_test\.go' | head -1)
+dest=$(echo "$first" | grep -oE '[a-zA-Z0-9_/.-]+_test\.go' | head -1 | sed -E 's#^.*/(router|client|transport|wamp|test)/#\1/#; s#^/##')
 [ -z "$dest" ] && { echo "$ID: cannot find demo destination in: $first"; exit 3; }
 case "$dest" in */*) ;; *) dest="router/$dest";; esac
 democmd=$(python3 -c "import json;print(json.load(open('$M/meta.json'))['demo_cmd'])")
